@@ -153,6 +153,8 @@ pub trait ObjectAssertion: Trace {
 enum CacheValue {
 	Cached(Result<Option<Val>>),
 	Pending,
+	/// Pending, and already entered a second time while the assertions of the object were running
+	PendingAsserting,
 }
 
 pub type EnumFieldsHandler<'a> =
@@ -603,13 +605,17 @@ impl ObjValue {
 			let mut cache = self.0.value_cache.borrow_mut();
 			// entry_ref candidate?
 			match cache.entry(cache_key.clone()) {
-				Entry::Occupied(v) => match v.get() {
+				Entry::Occupied(mut v) => match v.get() {
 					CacheValue::Cached(v) => return v.clone(),
 					CacheValue::Pending => {
 						if !is_asserting(self) {
 							bail!(InfiniteRecursionDetected);
 						}
+						// An assertion may read the field whose read has started the assertions,
+						// but only once: the field itself reading it again depends on itself
+						v.insert(CacheValue::PendingAsserting);
 					}
+					CacheValue::PendingAsserting => bail!(InfiniteRecursionDetected),
 				},
 				Entry::Vacant(v) => {
 					v.insert(CacheValue::Pending);
